@@ -360,6 +360,66 @@ def c19(run):
     run.exhaustive = False
 
 
+# ------------------------------------------------------------------------------------------------ C20
+def c20(run):
+    run.rule = ("MC + GEN: programs of <= N block items (N=1 quick, 2 thorough) from 60 items (all operators, assignments, nested blocks, bind forms incl. a rejected one) are "
+                "re-rendered under 30 styles: a separator per token boundary from a pool of 15 (every whitespace character, runs, CR LF, comments with quotes/keywords/';'/'('/"
+                "non-ASCII ended by LF or CR, and nothing where the L1 lexer still separates), optional ';' kept or dropped, redundant parentheses at three intensities. "
+                "MC invariant SameTokens (the L1 lexer yields the same tokens). GEN: the real compiler must give the same code and constants, output, blocks, binding, warnings "
+                "and error (positions aside) for both renderings; all string bodies of <= 3 units over {# ; ( ) SP TAB VT FF CR NEL NBSP quote backslash a} reach print "
+                "byte for byte; a comment ends at CR or LF and at none of 13 other bytes. Non-trivial = >= 2 items / >= 2 units; distinct by case.")
+    q = run.quick
+    run.gen_replay("Gen_Layout", cfg(constants=dict(Scope="render", MaxItems=1 if q else 2), invariants=("Emit", "SameTokens")), ["replay-layout"], "C20:render")
+    run.gen_replay("Gen_Layout", cfg(constants=dict(Scope="strings", MaxItems=3), invariants=("Emit",)), ["replay-layout"], "C20:strings")
+    run.gen_replay("Gen_Layout", cfg(constants=dict(Scope="comment", MaxItems=1), invariants=("Emit",)), ["replay-layout"], "C20:comment")
+    if q:
+        run.gen_replay("Gen_Layout", cfg(constants=dict(Scope="render", MaxItems=3), invariants=("Emit", "SameTokens")), ["replay-layout"], "C20:sim",
+                       simulate=10 ** 9, depth=6, workers=1, max_cases=4000)
+    run.exhaustive = False
+
+
+# ------------------------------------------------------------------------------------------------ C08
+def c08(run):
+    run.rule = ("MC: the line/column algorithm of the implementation (binary search over recorded newline offsets) equals the definition (1 + newlines before the offset; bytes "
+                "since the preceding newline) for every byte string over {LF, CR, a} of length <= L and every offset (L=7 quick, 9 thorough). GEN: 14 statement shapes whose offending "
+                "token / failing operation is known by construction (compile errors with quoted token, 'at end', lexical error, runtime errors of binary / parenthesised / unary / "
+                "division / unresolved / bind / duplicate-child kinds, the repeated-bind warning) x 14 concrete layout prefixes (blank lines, CR LF, CR, tabs, VT FF, comments, multi-byte "
+                "characters, a preceding statement) and 3 scaled prefix kinds x 19 sizes across 240/241, 2287/2288, 4096, 8192, 67823/67824, with line, column and quoted text in "
+                "closed form; each is run whole, through InterpretFile in reads of 7 and 4096 bytes, and after Dump + LoadProg; the stored line table must equal the newline offsets. "
+                "Non-trivial = every case; distinct by case.")
+    run.mc("Gen_Pos", cfg(constants=dict(Scope="mc", MaxLen=7 if run.quick else 9), invariants=("Lemma",)), label="MC_Pos")
+    run.gen_replay("Gen_Pos", cfg(constants=dict(Scope="shapes", MaxLen=1), invariants=("Emit",)), ["replay-pos"], "C08:shapes")
+    # arbitrary rejected inputs: every diagnostic the real parser prints must sit at the end of a token of the L1 lexer
+    import os, subprocess, re
+    cases = os.path.join(run.scratch, "diag.cases")
+    with open(cases, "w") as f:
+        for mod, c, kw in [("Gen_Gram", gen_cfg(dict(Scope="viable", MaxLen=4)), {}),
+                           ("Gen_Gram", gen_cfg(dict(Scope="recover", MaxLen=3), invariants=("EmitR",)), {}),
+                           ("Gen_Chunks", cfg(constants=dict(Faithful=False, Scope="page", NLex=2), invariants=("EmitCase",)), {})]:
+            p = subprocess.Popen(["cat"], stdin=subprocess.PIPE, stdout=f, text=True)
+            run.tlc(mod, c, consumer=p, label="C08:gen:" + mod, **kw)
+            p.stdin.close()
+            p.wait()
+    dg = os.path.join(run.scratch, "diags.ndjson")
+    s = run.vh(["drive-diag", "--out", dg, "--max", "2500" if run.quick else "20000", "--stride", "11" if run.quick else "2"], "C08:diag", input_path=cases)
+    run.traces -= s.get("judged", 0)
+    n = (s.get("extra") or {}).get("sources", 0)
+    if n == 0:
+        raise Inconclusive("no diagnostics collected")
+    r = run.tlc("Trace_Pos", cfg(invariants=("Located",)), files={"diags.ndjson": "@" + dg}, label="C08:diag:tlc")
+    if r["violated"]:
+        m = re.search(r"k = (\d+)", r["text"])
+        kk = int(m.group(1)) if m else 0
+        lines = open(dg).read().splitlines()
+        j = json.loads(lines[kk - 1]) if 0 < kk <= len(lines) else {}
+        run.violations.append(dict(why="a diagnostic of the real parser does not designate the end of a token of the source (invariant Located)", shape="tlc:Located",
+                                   case=dict(fam="diag", src=j.get("text"), diags=j.get("diags")), observed=j.get("diags"), confirmed=True, stage="C08:diag:tlc"))
+    else:
+        run.traces += n
+        run.extra["diagnostics_located"] = (s.get("extra") or {}).get("diagnostics", 0)
+    run.exhaustive = False
+
+
 # ------------------------------------------------------------------------------------------------ C16
 def c16(run):
     run.rule = ("GEN: bind cases (descriptor x block) with the specification's flag 'sens' = two or more failing entries or keys colliding on one field "
@@ -415,6 +475,7 @@ CHECKS = {
     "C04": (c04, "model_checking"),
     "C05": (c05, "model_checking"),
     "C07": (c07, "model_checking"),
+    "C08": (c08, "model_checking"),
     "C09": (c09, "model_checking"),
     "C10": (c10, "model_checking"),
     "C11": (c11, "model_checking"),
@@ -422,6 +483,7 @@ CHECKS = {
     "C13": (c13, "model_checking"),
     "C18": (c18, "model_checking"),
     "C19": (c19, "model_checking"),
+    "C20": (c20, "model_checking"),
     "C15": (c15, "model_checking"),
     "C16": (c16, "model_checking"),
     "C17": (c17, "model_checking"),
